@@ -66,9 +66,9 @@ def ancestors(n):
         n = n.parent
 
 
-def check_site(d, M):
+def check_site(d, M, mode="abs"):
     out = []
-    src, gen_out, scratch, err = gen_site.generate(d, M)
+    src, gen_out, scratch, err = gen_site.generate(d, M, mode=mode)
     try:
         too_many = [r for _, dd in gen_site.walk(d) for r in dd["recipes"] if r["servings"] and r["servings"] > M]
         if err is not None:
@@ -85,7 +85,10 @@ def check_site(d, M):
         want, collisions = expected_files(d, M)
         got = set(gen_site.output_files(gen_out))
         assets = {f for f in got if f.startswith("/assets/")}
-        missing, extra = sorted(want - got), sorted(got - want - assets)
+        # copies under /assets/ are exactly the local files the documents point at (never a recipe or readme source)
+        linked = {"/assets/" + t for _, dd in gen_site.walk(d) for h in list(dd["recipes"]) + ([dd["readme"]] if dd["readme"] else [])
+                  for _, _, (kind, t) in h.get("links", []) if kind == "asset"}
+        missing, extra = sorted(want - got), sorted((got - want - assets) | (assets - linked))
         if missing or extra:
             out.append(("C15:wrong-set-of-files", "missing %r, extra %r" % (missing[:4], extra[:4])))
         if collisions:
@@ -134,6 +137,8 @@ def gen_case(rng, collide=False):
     if collide and d["recipes"]:
         r = d["recipes"][0]
         d["recipes"].append(dict(file=r["file"].rpartition(".")[0] + (".MD" if r["file"].endswith(".md") else ".md"), title="Twin", servings=r["servings"], links=[]))
+    if rng.random() < 0.5:
+        c14.gen_links(rng, d)      # recipes and readmes that point at one another and at local files
     return d, rng.randint(1, 4)
 
 
@@ -145,24 +150,30 @@ def fixed_cases():
     yield sub("root", [r("big.md", "Big", 4), r("plain.md", "Plain", None)], [sub("x", [r("SOUP.MD", "Loud", 2), r("Pie.Md", "Pie", 1)])]), 4   # servings == M
     yield sub("root", [r("twelve.md", "Party punch", 12), r("two.md", "Two", 2)]), 12
     yield sub("root", [r("foo.md", "Foo", 2), r("foo.MD", "Twin", 2)]), 2          # recorded finding: one page for two files
+    # recipes that point at one another and at a local file, in another directory too
+    potato = dict(file="potato.md", title="Potato soup", servings=2, links=[("Lleek", "leek.md", ("recipe", "soups/leek.md")), ("Ipic", "pic.png", ("asset", "soups/pic.png"))])
+    leek = dict(file="leek.md", title="Leek soup", servings=3, links=[("Lbread", "../bread.md", ("recipe", "bread.md")), ("Lroot", "/soups/potato.md", ("recipe", "soups/potato.md"))])
+    bread = dict(file="bread.md", title="Bread", servings=None, links=[("Lsoup", "soups/potato.md", ("recipe", "soups/potato.md"))])
+    yield dict(name="root", readme=None, recipes=[bread], assets=[],
+               subdirs=[dict(name="soups", readme=None, recipes=[potato, leek], subdirs=[], assets=[dict(file="pic.png", data=b"\x89PNG")])]), 3
 
 
 def oracle(run):
     rng = run.rng
-    fixed = list(fixed_cases())
+    fixed = [(d, M, mode) for d, M in fixed_cases() for mode in gen_site.PATH_MODES]
     for i in range(run.budget(25, 600) + len(fixed)):
-        d, M = fixed[i] if i < len(fixed) else gen_case(rng, collide=(i == len(fixed)))
-        run.case(("oracle", gen_site.tree_sexp(d), M), True, kind="site")
+        d, M, mode = fixed[i] if i < len(fixed) else (gen_case(rng, collide=(i == len(fixed))) + (gen_site.PATH_MODES[i % 3],))
+        run.case(("oracle", gen_site.tree_sexp(d), M), True, kind="site-" + mode)
         seen = set()
-        for sig, detail in check_site(d, M):
+        for sig, detail in check_site(d, M, mode):
             if sig not in seen:
                 seen.add(sig)
-                run.violate(sig, detail, {"site": c14.d_json(d), "M": M})
+                run.violate(sig, detail, {"site": c14.d_json(d), "M": M, "mode": mode})
 
 
 def replay(run, obj):
     r = obj["replay"]
-    res = check_site(c14.d_unjson(r["site"]), r["M"])
+    res = check_site(c14.d_unjson(r["site"]), r["M"], r.get("mode", "abs"))
     for x in res:
         print(*x)
     return bool(res)
